@@ -154,6 +154,17 @@ PROPS["C15"] = A("TestSim_C15",
     assumptions=COMMON_ASSUME + ["an action that falls on the exact instant of the establishment timeout is judged leniently (timer and request are concurrent)",
         "media payloads are opaque strings; ICE server configuration is a fixed stub"])
 
+PROPS["C05"] = A("TestSim_C05", PERM_RULE +
+    "what every session has been told about its own user's permissions. The recorded frames of every session that stayed attached to 'me' are folded the way a client SDK (and the cluster proxy of a topic) tracks "
+    "permissions: full modes from {meta sub} listings on 'me', {meta desc} and the {ctrl params.acs} answers to the session's own requests; textual deltas and full values carried by {pres what=acs} (on 'me' and on "
+    "the topic, with the cleared-name conventions for actor/target/source) applied with AccessMode.ApplyMutation. At the end of the run the tracked (want, given) of the session's user on every group and p2p topic "
+    "where that user still is a subscriber must equal what the loaded topic (else the store) holds; a delta that cannot be applied is a violation too. ONLY this notification-replay clause of C05 is decided here; "
+    "the algebraic clauses (canonical text form, parse/print round trip, rejection of unknown letters, difference-then-apply over all 256x256 pairs) are pure functions of their input and are not claimed. "
+    "Non-trivial = at least 2 (session, topic) pairs judged after at least 4 requests; distinct = distinct (program hash, schedule hash).",
+    probes=["perm.reload", "perm.pattern_step"],
+    assumptions=COMMON_ASSUME + ["the cluster proxy party named by the property is represented by the same fold (updateAcsFromPresMsg uses ApplyMutation on the same {pres acs} stream); real proxy topics are not simulated",
+        "only the session's own user's permissions are tracked, not those of other subscribers shown to administrators"])
+
 PROPS["C10"] = A("TestSim_C10",
     "one evaluation = one simulated run of the 'presence' workload: 3-4 users x 1-2 sessions (gRPC and long-polling) on 1-2 groups and p2p topics; the last user is a pure observer whose sessions stay attached to 'me' only "
     "and record, per source, what they were last told ({get sub} answer when attaching, then every {pres} on 'me'); the other users' sessions perform 4-20 sequential actions drawn from: connect as a foreground or a background "
@@ -253,10 +264,6 @@ PROPS["C18"] = {
 }
 
 NOT_APPLICABLE = {
-    "C05": "not claimed. The algebra clauses (canonical text form, parse/print round trip, delta laws over 256x256 pairs) are pure functions of their input: no schedule, clock or fault for a simulator to decide. "
-           "For the remaining clause (parties that replay change notifications converge to the authoritative permissions) a tracker over the recorded frames of the 'perm' workload was built (harness/c05.go, TestSim_C05, "
-           "not registered): it reports divergences on the unchanged tree, three of which were traced to recorded findings (see known-findings.txt, property C05) while others could not be triaged to the point where "
-           "every alarm is known to be genuine; a check whose alarms are not all understood is not claimed",
     "C20": "pure functions of one input (id codecs, name spellings, JSON<->protobuf converters): no schedule, clock, fault, crash point or second party for a simulator to decide; see DESIGN.md section 6",
 }
 
